@@ -2,6 +2,8 @@ package main
 
 import (
 	"fmt"
+	"os"
+	"time"
 	"go/ast"
 	"go/token"
 	"go/types"
@@ -59,6 +61,7 @@ type Event struct {
 	Block    int32
 
 	Depth   int        // > 0: the event happens inside a callee whose body was inlined at this point of the path
+	From    string     // key of the (innermost) inlined callee the event comes from; "" for the analysed function's own code
 	Inlined bool       // EvCall: the events of the callee follow (up to the matching EvInlEnd)
 	Vals    []ast.Expr // EvAssign/EvReturn consuming an inlined call: what the callee returned on this path
 	CondVal ast.Expr   // EvBranch whose condition contains inlined calls: the condition with their results put in
@@ -94,6 +97,9 @@ type Flow struct {
 	inlStack []*Func                    // callees being inlined around this flow
 	self     *Func                      // the declared function the root flow belongs to
 	noInline bool
+	work     int  // enumeration steps of the current attempt
+	busy     bool // Paths() is running (guards against asking a function for its own path count)
+	inlMode  int // 0: private helpers generously + small callees; 1: small callees only; 2: tail calls and two-path callees only
 	paths   []Path
 	truncated []Path
 	over    bool
@@ -314,14 +320,36 @@ func (f *Flow) Paths() (paths []Path, ok bool) {
 		return f.paths, !f.over
 	}
 	f.done = true
+	f.busy = true
+	defer func() { f.busy = false }()
+	t0 := time.Now()
+	defer func() {
+		if d := time.Since(t0); os.Getenv("COERLINT_DEBUG") != "" && d > 200*time.Millisecond {
+			fmt.Fprintf(os.Stderr, "FLOW %s: %d paths over=%v mode=%d noinline=%v %.1fs\n", f.Name, len(f.paths), f.over, f.inlMode, f.noInline, d.Seconds())
+		}
+	}()
 	f.enumerate()
-	if f.over && !f.noInline && len(f.inl) > 0 {
-		// too many paths with callee bodies spliced in: fall back to opaque calls
-		f.noInline = true
-		f.paths, f.truncated, f.over, f.pruned = nil, nil, false, 0
+	// too many paths with callee bodies spliced in: retry with small callees only, then with opaque calls
+	for f.over && !f.noInline && len(f.inl) > 0 {
+		if f.inlMode < 2 {
+			f.inlMode++
+		} else {
+			f.noInline = true
+		}
+		f.inl = map[*ast.CallExpr]*inlined{}
+		f.paths, f.truncated, f.over, f.pruned, f.work = nil, nil, false, 0, 0
 		f.enumerate()
 	}
 	return f.paths, !f.over
+}
+
+// pathBudget: while callee bodies are being spliced in, the enumeration gives up early (and is
+// retried with less inlining); without inlining the bound is PathLimit.
+func (f *Flow) pathBudget() int {
+	if f.noInline || f.inlMode >= 2 {
+		return PathLimit
+	}
+	return 2500
 }
 
 func (f *Flow) enumerate() {
@@ -347,7 +375,7 @@ func (f *Flow) enumerate() {
 			}
 			p.Ev = f.withDeferred(cur, p.Exit)
 			f.paths = append(f.paths, p)
-			if len(f.paths) > PathLimit {
+			if len(f.paths) > f.pathBudget() {
 				f.over = true
 			}
 		case 1:
@@ -417,6 +445,11 @@ func (f *Flow) enumerate() {
 					cpaths, _ := in.flow.Paths()
 					for pi := range cpaths {
 						cp := &cpaths[pi]
+						f.work += 1 + len(cp.Ev)/8
+						if f.inlMode < 2 && f.work > 60000 {
+							f.over = true
+							return
+						}
 						cur = append(cur[:base], e)
 						fa2 := fa.clone()
 						fa2.apply(f.Info, e)
@@ -428,6 +461,9 @@ func (f *Flow) enumerate() {
 						}
 						for _, ce := range cp.Ev {
 							ce.Depth++
+							if ce.From == "" {
+								ce.From = in.key
+							}
 							if ce.Kind == EvReturn {
 								ce.Kind = EvInlReturn
 							}
@@ -444,7 +480,7 @@ func (f *Flow) enumerate() {
 						if cp.Exit == ExitNoReturn {
 							p := Path{Exit: ExitNoReturn, Ev: f.withDeferred(cur, ExitNoReturn)}
 							f.paths = append(f.paths, p)
-							if len(f.paths) > PathLimit {
+							if len(f.paths) > f.pathBudget() {
 								f.over = true
 								return
 							}
@@ -501,6 +537,11 @@ func (f *Flow) enumerate() {
 	}
 	rec = func(b *cfg.Block, pre []Event, fa facts) {
 		if f.over {
+			return
+		}
+		f.work++
+		if !f.noInline && f.inlMode < 2 && f.work > 60000 {
+			f.over = true // too much work with callee bodies spliced in: retried with less inlining
 			return
 		}
 		if visits[b.Index] >= f.maxVisits() {
@@ -611,6 +652,9 @@ func (f *Flow) withDeferred(cur []Event, exit ExitKind) []Event {
 				out = append(out, ce)
 				for _, ie := range flattenDeferred(in.flow) {
 					ie.Depth++
+					if ie.From == "" {
+						ie.From = in.key
+					}
 					out = append(out, ie)
 				}
 				continue
